@@ -5,6 +5,8 @@ use crate::args::ItemState;
 
 static mut ENV_READS: usize = 0;
 static mut ENV_UNDECLARED_READ: bool = false;
+// what the (single) read of the declared variable found: the harness' oracle for "the variable is set"
+static mut ENV_SET: bool = false;
 
 fn stub_var_os<K: AsRef<std::ffi::OsStr>>(key: K) -> Option<OsString> {
     let k = std::os::unix::ffi::OsStrExt::as_bytes(key.as_ref());
@@ -15,12 +17,43 @@ fn stub_var_os<K: AsRef<std::ffi::OsStr>>(key: K) -> Option<OsString> {
             ENV_UNDECLARED_READ = true;
         }
     }
-    if kani::any() {
+    let set: bool = kani::any();
+    unsafe {
+        ENV_SET = set;
+    }
+    if set {
         let mut v = Vec::with_capacity(1);
         v.push(b'e');
         Some(<OsString as std::os::unix::ffi::OsStringExt>::from_vec(v))
     } else {
         None
+    }
+}
+
+// the other std entry point for reading a variable: same environment model; a set variable may hold non-UTF-8 data,
+// which `var` reports as an error although the variable is set (only reached if the code under test calls `std::env::var`)
+fn stub_var<K: AsRef<std::ffi::OsStr>>(key: K) -> Result<String, std::env::VarError> {
+    let k = std::os::unix::ffi::OsStrExt::as_bytes(key.as_ref());
+    unsafe {
+        ENV_READS += 1;
+        if !(k.len() == 1 && k[0] == b'V') {
+            ENV_UNDECLARED_READ = true;
+        }
+    }
+    let set: bool = kani::any();
+    unsafe {
+        ENV_SET = set;
+    }
+    if !set {
+        Err(std::env::VarError::NotPresent)
+    } else if kani::any() {
+        let mut v = Vec::with_capacity(1);
+        v.push(b'e');
+        Ok(unsafe { String::from_utf8_unchecked(v) })
+    } else {
+        let mut v = Vec::with_capacity(1);
+        v.push(0xffu8);
+        Err(std::env::VarError::NotUnicode(<OsString as std::os::unix::ffi::OsStringExt>::from_vec(v)))
     }
 }
 
@@ -60,6 +93,7 @@ fn named_a_env() -> NamedArg {
 #[kani::proof]
 #[kani::unwind(6)]
 #[kani::stub(std::env::var_os, stub_var_os)]
+#[kani::stub(std::env::var, stub_var)]
 fn k10_flag_line_beats_env() {
     let (mut st, k0, k1, p0, p1) = two_item_state();
     let absent: Option<u8> = if kani::any() { Some(0) } else { None };
@@ -78,10 +112,11 @@ fn k10_flag_line_beats_env() {
     } else {
         assert!(st.verif_remaining() == before);
         assert!(reads == 1);
+        let set = unsafe { ENV_SET };
         match &r {
-            Ok(1) => {}                                   // variable set: the flag counts as present
-            Ok(0) => assert!(has_absent),                  // both absent: the declared absent value
-            Err(Error(Message::Missing(_))) => assert!(!has_absent),
+            Ok(1) => assert!(set),                         // variable set: the flag counts as present
+            Ok(0) => assert!(has_absent && !set),          // both absent: the declared absent value
+            Err(Error(Message::Missing(_))) => assert!(!has_absent && !set),
             _ => assert!(false),
         }
     }
@@ -95,6 +130,7 @@ fn k10_flag_line_beats_env() {
 #[kani::proof]
 #[kani::unwind(6)]
 #[kani::stub(std::env::var_os, stub_var_os)]
+#[kani::stub(std::env::var, stub_var)]
 fn k10_argument_line_beats_env() {
     let (mut st, k0, k1, p0, p1) = two_item_state();
     let p: ParseArgument<String> = ParseArgument { ty: PhantomData, named: named_a_env(), metavar: "M", adjacent: false };
@@ -121,9 +157,11 @@ fn k10_argument_line_beats_env() {
     } else {
         assert!(reads == 1);
         assert!(st.verif_remaining() == before);
+        let set = unsafe { ENV_SET };
         match &r {
-            Ok(v) => assert!(std::os::unix::ffi::OsStrExt::as_bytes(v.as_os_str()).len() == 1),
-            Err(Error(Message::Missing(_))) => {}
+            // variable set (whatever bytes it holds): its value is used
+            Ok(v) => assert!(set && std::os::unix::ffi::OsStrExt::as_bytes(v.as_os_str()).len() == 1),
+            Err(Error(Message::Missing(_))) => assert!(!set),
             _ => assert!(false),
         }
     }
